@@ -23,6 +23,7 @@ import (
 	"sort"
 	"strconv"
 	"strings"
+	"time"
 
 	"modernc.org/sqlite"
 	"shanhu.io/g/errcode"
@@ -565,34 +566,50 @@ func (r *refKV) exec(o *op) string {
 // ---------------------------------------------------------------- a world: both stores on both backends
 
 type world struct {
-	db   *sqlx.DB
-	mem  map[string]*backend
-	sql  map[string]*backend
-	ref  map[string]*refKV
-	file string
+	db       *sqlx.DB
+	mem      map[string]*backend
+	sql      map[string]*backend
+	ref      map[string]*refKV
+	dir      string
+	n        int
+	dirty    bool          // a call on the SQLite store did not return, or the file stayed locked: start over on a fresh file
+	watchdog time.Duration // per implementation call
+	j        *hx.Journal
 }
 
 var tables = map[string]string{"ord": "kv_ord", "uno": "kv_uno"}
 
-func openWorld(dir string) (*world, error) {
-	w := &world{file: filepath.Join(dir, "c05.db")}
-	db, err := sqlx.OpenSqlite3(w.file)
-	if err != nil {
+func openWorld(dir string, j *hx.Journal) (*world, error) {
+	w := &world{dir: dir, watchdog: 20 * time.Second, j: j}
+	if err := w.openDB(); err != nil {
 		return nil, err
-	}
-	w.db = db
-	// one connection: the run is sequential and the pragma is per connection
-	db.DB.SetMaxOpenConns(1)
-	if _, err := db.DB.Exec("pragma synchronous=off"); err != nil {
-		return nil, err
-	}
-	for _, t := range tables {
-		if err := pisces.Sqlite3CreateKV(db, t); err != nil {
-			return nil, err
-		}
 	}
 	w.reset()
 	return w, nil
+}
+
+// openDB creates a fresh database file with the two tables.  No cap on the
+// connection pool: a connection the code under test fails to give back must
+// show as wrong results, not as a harness that waits for the pool.
+func (w *world) openDB() error {
+	if w.db != nil {
+		old := w.db
+		go old.DB.Close() // may wait for a leaked connection; never block on it
+	}
+	w.n++
+	file := filepath.Join(w.dir, fmt.Sprintf("c05-%d.db", w.n))
+	db, err := sqlx.OpenSqlite3(file + "?_pragma=synchronous(off)")
+	if err != nil {
+		return err
+	}
+	for _, t := range tables {
+		if err := pisces.Sqlite3CreateKV(db, t); err != nil {
+			return err
+		}
+	}
+	w.db = db
+	w.dirty = false
+	return nil
 }
 
 func (w *world) sqlDump(table string) []ent {
@@ -617,6 +634,25 @@ func (w *world) reset() {
 	w.mem = map[string]*backend{}
 	w.sql = map[string]*backend{}
 	w.ref = map[string]*refKV{}
+	if !w.dirty {
+		// emptying the tables must work on a store nobody is using
+		ok := hx.WithTimeout(w.watchdog, func() {
+			for _, t := range tables {
+				if _, err := w.db.DB.Exec("delete from " + t); err != nil {
+					w.dirty = true
+				}
+			}
+		})
+		if !ok {
+			w.dirty = true
+		}
+	}
+	if w.dirty {
+		if err := w.openDB(); err != nil {
+			fmt.Println("cannot reopen the SQLite store:", err)
+			os.Exit(3)
+		}
+	}
 	for name, t := range tables {
 		ordered := name == "ord"
 		kv, dump := pisces.VerifNewMemKV(ordered)
@@ -627,7 +663,6 @@ func (w *world) reset() {
 			}
 			return es
 		}}
-		w.db.DB.Exec("delete from " + t)
 		var skv *pisces.KV
 		if ordered {
 			skv = pisces.NewOrderedSqlite3KV(w.db, t)
@@ -638,6 +673,21 @@ func (w *world) reset() {
 		w.sql[name] = &backend{kv: skv, dump: func() []ent { return w.sqlDump(table) }}
 		w.ref[name] = &refKV{ordered: ordered, m: map[string]*refEntry{}}
 	}
+}
+
+const neverReturns = "never-returns"
+
+// guarded runs one implementation call (and the dump after it) under the watchdog.
+func (w *world) guarded(b *backend, o *op) string {
+	out := neverReturns
+	if hx.WithTimeout(w.watchdog, func() {
+		r := b.execSafe(o)
+		d := fnv1a(dumpStr(b.dump()))
+		out = r + "#" + d
+	}) {
+		return out
+	}
+	return neverReturns
 }
 
 // outs of one op: result#digest per party
@@ -657,8 +707,12 @@ func (w *world) exec(line string) (outs, bool) {
 		return outs{dumpStr(m.dump()), dumpStr(s.dump()), dumpStr(r.dump())}, true
 	}
 	var x outs
-	x.mem = m.execSafe(o) + "#" + fnv1a(dumpStr(m.dump()))
-	x.sql = s.execSafe(o) + "#" + fnv1a(dumpStr(s.dump()))
+	x.mem = w.guarded(m, o)
+	w.j.Risky(line) // a death of the process inside the SQLite call is attributed to this op
+	x.sql = w.guarded(s, o)
+	if x.sql == neverReturns {
+		w.dirty = true
+	}
 	x.ref = r.exec(o) + "#" + fnv1a(dumpStr(r.dump()))
 	return x, true
 }
@@ -668,6 +722,7 @@ func (w *world) exec(line string) (outs, bool) {
 type failure struct {
 	key, desc string
 	at        int
+	hang      bool
 }
 
 func opName(line string) string {
@@ -692,6 +747,20 @@ func judge(line string, x outs) *failure {
 	rr, rd := split(x.ref)
 	for _, p := range []struct{ who, out string }{{"mem", x.mem}, {"sql", x.sql}} {
 		r, d := split(p.out)
+		if p.out == neverReturns {
+			return &failure{
+				key:  fmt.Sprintf("%s-op-never-returns:%s", p.who, opName(line)),
+				desc: fmt.Sprintf("%s backend: the call %q did not return within the watchdog", p.who, line),
+				hang: true,
+			}
+		}
+		if r == "busy" {
+			return &failure{
+				key: fmt.Sprintf("%s-busy-without-contention:%s", p.who, opName(line)),
+				desc: fmt.Sprintf("%s backend answers busy to %q in a sequential history (nobody else uses the store): an earlier call "+
+					"left a transaction or a lock behind; the map gives %s", p.who, line, short(x.ref)),
+			}
+		}
 		what := ""
 		if r != rr {
 			what = "result"
@@ -735,8 +804,16 @@ func (w *world) runHistory(ops []string) ([]outs, *failure) {
 		if f := judge(l, x); f != nil && first == nil {
 			f.at = i
 			first = f
+			if f.hang {
+				// the goroutine of that call is still inside the store: nothing after it means anything
+				for k := i + 1; k < len(ops); k++ {
+					res[k] = outs{"bad-op", "bad-op", "bad-op"}
+				}
+				break
+			}
 		}
 	}
+	w.j.Clear()
 	return res, first
 }
 
@@ -855,7 +932,66 @@ func (g *gen) history(store string, nops int) []string {
 	}
 	live := 0 // rough count of live entries, for window boundaries
 	var ops []string
+	kfOf := func(k string) string { return " k=" + hx.Hex([]byte(k)) + hk(store, k) }
+	write := func() string {
+		k := hx.Pick(g.r, pool)
+		switch g.r.Intn(7) {
+		case 0:
+			return store + " add" + kfOf(k) + " v=" + hx.Hex([]byte(g.jsonVal()))
+		case 1:
+			return store + " replace" + kfOf(k) + " v=" + hx.Hex([]byte(g.jsonVal()))
+		case 2:
+			return store + " appendBytes" + kfOf(k) + " v=" + hx.Hex([]byte(hx.Pick(g.r, rawPool)))
+		case 3:
+			return store + " emplace" + kfOf(k) + " v=" + hx.Hex([]byte(g.jsonVal()))
+		case 4:
+			return store + " set" + kfOf(k) + " v=" + hx.Hex([]byte(g.jsonVal()))
+		case 5:
+			return store + " remove" + kfOf(k)
+		}
+		return store + " mutate" + kfOf(k) + " mode=put v=" + hx.Hex([]byte(g.jsonVal()))
+	}
+	// two-step patterns: a call that ends early (not-found, refused, cancelled, exists), then a write.
+	// Whatever the early exit leaves behind (an open transaction, a lock) shows in the write.
+	pattern := func() []string {
+		missing := fmt.Sprintf("absent%d", g.r.Intn(1000))
+		k := hx.Pick(g.r, pool)
+		var first string
+		switch g.r.Intn(8) {
+		case 0, 1:
+			first = store + " mutate" + kfOf(missing) + " mode=put v=" + hx.Hex([]byte(g.jsonVal()))
+			g.rep.Count("pattern:mutate-missing-then-write")
+		case 2:
+			first = store + " mutate" + kfOf(k) + " mode=" + hx.Pick(g.r, []string{"fail", "cancel"})
+			g.rep.Count("pattern:mutate-refused-then-write")
+		case 3:
+			first = store + " add" + kfOf(k) + " v=" + hx.Hex([]byte(g.jsonVal()))
+			g.rep.Count("pattern:add-then-write")
+			return []string{first, first, write()}
+		case 4:
+			first = store + " setBytes" + kfOf(missing) + " v=31"
+			g.rep.Count("pattern:set-missing-then-write")
+		case 5:
+			first = store + " remove" + kfOf(missing)
+			g.rep.Count("pattern:remove-missing-then-write")
+		case 6:
+			first = store + " setClass" + kfOf(missing) + " c=6331"
+			g.rep.Count("pattern:setclass-missing-then-write")
+		default:
+			first = store + " walk stop=0:" + hx.Pick(g.r, []string{"fail", "cancel"})
+			g.rep.Count("pattern:walk-stopped-then-write")
+		}
+		return []string{first, write()}
+	}
 	for len(ops) < nops {
+		if g.r.Intn(8) == 0 {
+			for _, l := range pattern() {
+				if _, ok := parseOp(l); ok {
+					ops = append(ops, l)
+				}
+			}
+			continue
+		}
 		x := g.r.Intn(totalW)
 		name := ""
 		for i, w := range opWeights {
@@ -942,6 +1078,7 @@ type run struct {
 	impl   []outs
 	shrunk map[string]int // oracle key -> histories already minimised
 	failed int
+	stop   bool
 }
 
 func (r *run) count(line string, x outs) {
@@ -998,18 +1135,48 @@ func (r *run) history(ops []string, origin string) {
 		return
 	}
 	key := fail.key
+	if fail.hang {
+		// time-based: run the history again, alone, before believing it
+		_, again := r.w.runHistory(ops)
+		if again == nil || !again.hang {
+			r.rep.Note("a call exceeded the watchdog once and returned in time when the history was re-run; not reported (%s)", key)
+			if again == nil {
+				return
+			}
+			fail, key = again, again.key
+		} else {
+			fail, key = again, again.key
+			// a store that blocks is established: shrink cheaply and generate no more
+			r.w.watchdog = 3 * time.Second
+			r.stop = true
+			defer func() { r.w.watchdog = 20 * time.Second }()
+		}
+	}
 	r.failed++
 	r.rep.Count("failing-histories")
 	if r.shrunk[key] >= 2 {
 		return // already reported with two minimised histories; more of the same adds nothing
 	}
 	r.shrunk[key]++
-	small := ddmin(append([]string{}, ops[:fail.at+1]...), func(c []string) bool {
+	budget := 1 << 30
+	if fail.hang {
+		budget = 25 // every test of a blocking history costs a watchdog period
+	}
+	test := func(c []string) bool {
+		if budget <= 0 {
+			return false
+		}
+		budget--
 		_, f := r.w.runHistory(c)
 		return f != nil && f.key == key
-	})
+	}
+	start := append([]string{}, ops[:fail.at+1]...)
+	if fail.hang && len(start) > 1 && test(start[len(start)-1:]) {
+		start = start[len(start)-1:]
+	}
+	small := ddmin(start, test)
 	_, f2 := r.w.runHistory(small)
-	if f2 == nil {
+	if f2 == nil || f2.key != key {
 		f2 = fail
 		small = ops[:fail.at+1]
 	}
@@ -1032,7 +1199,7 @@ func main() {
 		defer os.RemoveAll(d)
 		dir = d
 	}
-	w, err := openWorld(dir)
+	w, err := openWorld(dir, hx.NewJournal(f.Work))
 	if err != nil {
 		rp.Note("cannot open the SQLite store: %v", err)
 		rp.Write(f.Out)
@@ -1068,6 +1235,10 @@ func main() {
 			}
 			r.history(g.history(store, n), fmt.Sprintf("seed %d history %d", f.Seed, i))
 			rp.Count("histories")
+			if r.stop {
+				rp.Note("stopped generating after a call on the store did not return (history %d)", i)
+				break
+			}
 			if r.failed >= 40 {
 				rp.Note("stopped generating after %d failing histories (of %d)", r.failed, i+1)
 				break
